@@ -12,6 +12,7 @@ after fork).  No source hook in /repo is needed.
 
 from __future__ import annotations
 
+import functools
 import sys
 import types
 
@@ -28,6 +29,8 @@ def code_of(func) -> types.CodeType:
             f = f.__func__
         elif isinstance(f, property):
             f = f.fget
+        elif isinstance(f, functools.cached_property):
+            f = f.func
         elif hasattr(f, "__wrapped__") and not isinstance(f, types.CodeType):
             f = f.__wrapped__
         else:
